@@ -53,7 +53,7 @@ SEQ = {
                      "unions of masked calls, input-controlled (conditionally formed, nested) cycles, default and joining "
                      "cycle_fn, plain consumers and leaves; every function requested as entry point; non-trivial = the "
                      "history iterated a cycle and wrote an input"),
-    "C13": dict(families=["fb", "fbshape"], needs=["cres", "op:set"],
+    "C13": dict(families=["fb", "fbshape"], fixmc_fb=True, needs=["cres", "op:set"],
                 rule="fb family: same shapes with cycle_result; non-trivial = a fallback was used and an input written"),
     "C14": dict(families=["pcycle", "pcyclefix"], par=["parpcycle"], needs=["panic:cycle", "op:set"],
                 rule="pcycle family: plain functions whose backward calls are input-controlled; non-trivial = a cycle "
@@ -142,6 +142,8 @@ def run_seq(pid, tier, seed, replay):
         mcinfo = run_mc_part(pid, cfg, tier, seed, binary, wd, results)
         if cfg.get("fixmc"):
             mcinfo = run_fixmc_part(pid, tier, seed, binary, wd, results, mcinfo)
+        if cfg.get("fixmc_fb"):
+            mcinfo = run_fixrev_part(pid, tier, seed, binary, wd, results, mcinfo, fb=True)
         fams = cfg["families"]
         with ThreadPoolExecutor(max_workers=min(8, len(fams))) as ex:
             futs = [ex.submit(seqcheck.run_family, binary, fam, seed * 1000 + i,
@@ -212,23 +214,31 @@ def run_fixmc_part(pid, tier, seed, binary, wd, results, info):
     if drift:
         log(f"DRIFT: salsa's sequence of body executions differs from the Fixpoint model's in {len(drift)} fetches "
             f"(not a property violation by itself). e.g. {json.dumps(drift[:1])}")
-    # the same engine across revisions (FixRev.tla): exhaustive small instances + simulated larger ones
-    mc = fixmc.run_fixrev(tier, wd)
-    jobs = fixmc.replay_jobs_rev(mc, 6000 if tier == "quick" else 60000, seed)
-    r = seqcheck.run_family(binary, "mc-fixrev", seed, 0, 0, wd, jobs=jobs)
+    return run_fixrev_part(pid, tier, seed, binary, wd, results, info, fb=False)
+
+
+def run_fixrev_part(pid, tier, seed, binary, wd, results, info, fb):
+    """The fixpoint engine across revisions (FixRev.tla; fb: the cycle_result / FallbackImmediate strategy):
+    exhaustive small instances + simulated larger ones, every emitted behaviour replayed on salsa."""
+    info = info or {"states": 0, "transitions": 0, "mc_models": [], "replayed_histories": 0, "replay_fetches_compared": 0,
+                    "drift": 0, "drift_samples": [], "exhaustive": True}
+    mc = fixmc.run_fixrev(tier, wd, fb=fb)
+    jobs = fixmc.replay_jobs_rev(mc, 6000 if tier == "quick" else 60000, seed, kind="fb" if fb else "fix")
+    r = seqcheck.run_family(binary, "mc-fixrevfb" if fb else "mc-fixrev", seed, 0, 0, wd, jobs=jobs)
     checked, wrong, drift = fixmc.compare(jobs, r["trace"])
     results.append(r)
     info["states"] += mc["distinct"]
     info["transitions"] += mc["generated"]
-    info["mc_models"].append({"spec": "specs/cycle/FixRev.tla", "family": "mc-fixrev", "constants": mc["consts"],
+    info["mc_models"].append({"spec": "specs/cycle/FixRev.tla", "family": "mc-fixrevfb" if fb else "mc-fixrev", "constants": mc["consts"],
+                              "strategy": "cycle_result (FallbackImmediate); the model reproduces salsa's history-dependent fallback results (known findings F3/F4): NoBadFb" if fb else "cycle_fn / cycle_initial",
                               "distinct_states": mc["distinct"], "states_generated": mc["generated"], "depth": mc["depth"],
-                              "invariants": fixmc.REV_INVARIANTS, "leaf_histories_emitted": len(mc["replays"]),
+                              "invariants": ["NoBadFb", "LocksQuiescent"] if fb else fixmc.REV_INVARIANTS, "leaf_histories_emitted": len(mc["replays"]),
                               "replayed_on_impl": len(jobs), "value_mismatches": len(wrong), "wall_s": round(mc["wall_s"], 1)})
     info["replayed_histories"] += len(jobs)
     info["replay_fetches_compared"] += checked
     info["drift"] += len(drift)
     info["drift_samples"] += drift[:3]
-    log(f"[{pid}] MC fixrev: {mc['distinct']} states (exhaustive + simulated configurations {mc['consts']}), {len(mc['replays'])} behaviours, "
+    log(f"[{pid}] MC fixrev{' (fallback strategy)' if fb else ''}: {mc['distinct']} states (exhaustive + simulated configurations {mc['consts']}), {len(mc['replays'])} behaviours, "
         f"{len(jobs)} replayed on salsa, {checked} fetches compared, value mismatches={len(wrong)}, "
         f"execution-sequence drift={len(drift)} ({mc['wall_s']:.0f}s)")
     if drift:
